@@ -41,7 +41,7 @@ def tnode (v : Name) : Name := 200 + v
 def isTnode (n : Name) : Bool := decide (200 ≤ n) && decide (n < 300)
 
 /-- ascending, duplicate free: the model's iteration order of a Python set of variables -/
-def nsort (l : List Name) : List Name := sortBy (fun a b => decide (a < b)) (dedup' l)
+def nsort (l : List Name) : List Name := ssort (fun a b => decide (a < b)) (dedup' l)
 
 /-- `get_transport_nodes(graph)` -/
 def transportNodes (G : MG Name) : List Name := G.nodes.filter isTnode
